@@ -162,7 +162,7 @@ def main(ctx):
         rec.ok(hd, outcome="forward:%s" % proj, nontrivial=nontriv(hd), calls=calls)
 
     headers = header_list(ctx.quick)
-    ctx.lattice("forward", headers, one_forward,
+    ctx.lattice("forward", headers, one_forward, fpstrict=True,
                 bounds=dict(headers=len(headers), projections=PROJS, crvals=CRVALS, cds=CDS, crpix=CRPIXS,
                             pixels_per_header=ngrid * ngrid + 3))
 
@@ -431,6 +431,8 @@ def main(ctx):
 
     def w_do(w, kind, op):
         px, py = np.array(P[0]), np.array(P[1])
+        if op[0] == "naxis":
+            return [w.get_naxis()]
         if op[0] == "i2s":
             return [np.asarray(v, dtype="f8") for v in w.image2sky(px, py)]
         sky = [np.asarray(v, dtype="f8") for v in W.forward(KINDS[kind], P[0], P[1])]
@@ -447,5 +449,5 @@ def main(ctx):
         import esutil.wcsutil as wm
         return [wm]
 
-    object_world(ctx, "several-objects", kinds, lambda kind: WCS(dict(KINDS[kind])), [("i2s",), ("s2i",)], w_do,
-                 w_modules, depth=ctx.pick(4, 5), check=w_check)
+    object_world(ctx, "several-objects", kinds, lambda kind: WCS(dict(KINDS[kind])), [("i2s",), ("s2i",), ("naxis",)], w_do,
+                 w_modules, depth=ctx.pick(4, 5), check=w_check, result_edits=True)
